@@ -266,3 +266,14 @@ def require_consistent(graph, what):
     require(graph.is_consistent(), what + ': graph fails its own consistency check')
     why = graph_integrity(graph)
     require(why is None, what + ': graph structure is broken although is_consistent() accepted it', problem=why)
+    # node depths and the length reported by the graph agree with an independent layering (only for graphs without dead ends,
+    # where "follow the first connection" reaches the terminal node from everywhere, as the docstring of node_depth assumes)
+    t0, t1 = graph.nid_terminal
+    if all((n.eids[0] or k == t0) and (n.eids[1] or k == t1) for k, n in graph.nodes.items()):
+        layers = graph_layers(graph)
+        Lg = len(layers) - 1
+        require(graph.length == Lg, what + ': length differs from the number of layers', got=graph.length, want=Lg)
+        for l, nids in enumerate(layers):
+            for nid in nids:
+                d0 = graph.node_depth(nid, 0); d1 = graph.node_depth(nid, 1)
+                require(d0 == l and d1 == Lg - l, what + ': node_depth differs from the layer of the node', nid=nid, layer=l, length=Lg, depth_left=d0, depth_right=d1)
